@@ -188,7 +188,15 @@ def rule_instances(ctx):
             pushed = [e[1] for e in o.state.events if e[0] == "push"]
             rs = shape(o.ret)
             got_response = rs.startswith("Ok({0:?,1:Some") or ("1:Some" in rs and rs.startswith("Ok("))
-            hc, _ = _has_atom(o.state, b"connection", b"close", origin=("try_parse", "::try_response'"))
+            # whose headers are inspected: those of the response that is handed to the caller
+            base = (("v", "Ok"), ("f", "0"), ("f", "1"), ("v", "Some"), ("f", "0"))
+            hleaf = o.ret.get(base + (("f", "@headers"),))
+            if hleaf is None:
+                rl = o.ret.get(base)
+                if rl and rl[0] == "term":
+                    from .interp import mkproj
+                    hleaf = ("term", mkproj(rl[1], (("f", "@headers"),)))
+            hc, _ = _has_atom(o.state, b"connection", b"close", origin=repr(hleaf) if hleaf else "try_parse")
             if not got_response:
                 if pushed:
                     bad.append("a close reason is recorded although no response was delivered (%s)" % rs[:30])
@@ -497,4 +505,11 @@ def rule_lost_boundaries(ctx):
               bad_desc="message boundaries lost but the connection may be offered for reuse: " + "; ".join(sorted(set(bad))[:2]))
 
 
-RULES = [rule_instances, rule_who_writes, rule_verdict, rule_capacity, rule_lost_boundaries]
+def rule_framing_premise(ctx):
+    """`the response body was close-delimited` is the framing decision of C06: the exhaustive framing table (R06.1/R06.2) is
+    shared, so that a body whose boundaries are lost is recognised as close-delimited in the first place"""
+    from . import rules_c06
+    rules_c06.rule_tables(ctx)
+
+
+RULES = [rule_instances, rule_who_writes, rule_verdict, rule_capacity, rule_lost_boundaries, rule_framing_premise]
